@@ -39,7 +39,7 @@
 (*                                        needs overlapping create/ooc/drop*)
 (*   exist/list: 0                        needs an overlapping create/ooc  *)
 (*           (a service whose static config is still locked is not listed) *)
-(*   open (any pattern with own resources, i.e. the blackboard):           *)
+(*   open (only the pattern with own resources, i.e. the blackboard):      *)
 (*           ServiceInCorruptedState      needs overlapping create/ooc/drop*)
 (*           ("some underlying resources are missing" - they are, while    *)
 (*           another call creates or removes them)                         *)
@@ -164,7 +164,8 @@ Transient(a, r, v, ov) ==
        /\ r \in {"AlreadyExists", "IsBeingCreatedByAnotherInstance", "HangsInCreation"}
        /\ ov \cap Creators # {}
     \/ /\ a = "open" /\ r = "IsMarkedForDestruction" /\ "drop" \in ov
-    \/ /\ a = "open" /\ r \in {"HangsInCreation", "ServiceInCorruptedState"} /\ ov \cap Mutators # {}
+    \/ /\ a = "open" /\ r = "HangsInCreation" /\ ov \cap Mutators # {}
+    \/ /\ a = "open" /\ r = "ServiceInCorruptedState" /\ P = "bb" /\ ov \cap Mutators # {}
     \/ /\ a = "ooc"
        /\ r \in {"Open:IsMarkedForDestruction", "Open:HangsInCreation", "Open:DoesNotExist",
                  "Create:AlreadyExists", "Create:IsBeingCreatedByAnotherInstance", "SystemInFlux"}
